@@ -45,7 +45,7 @@ theorem parseShoot_eq (s : List Char) :
     simp only [bind, Except.bind, pure, Except.pure]
     generalize args.getD [] = a
     rcases a with _ | ⟨x, _ | ⟨y, rest⟩⟩
-    · simp [argStep, condAnd, strIdx?]
+    · simp [argStep, condAnd]
     · by_cases hx : x = []
       · subst hx; simp [argStep, condAnd, strIdx?]
       · have hx' : x.isEmpty = false := by cases x <;> simp_all
@@ -93,8 +93,7 @@ theorem convShoot_eq {ρ} (reqs : List Char → Option ρ) (sh : List Char) (acc
     simp only [show ("sleep".toList = sleepName) from rfl]
     unfold expandItem
     by_cases hs : it.name = sleepName
-    · have hs' : (it.name == sleepName) = true := by simp [hs]
-      simp only [hs, hs', if_true]
+    · simp only [hs, if_true]
       by_cases he : acc = []
       · subst he
         simp [bumpLast, errClass_sleep]
@@ -194,9 +193,7 @@ theorem calcIndex_numeric (indexStr seg : String) (L id : Nat) (it : Iter) (i : 
   have e4 : (L == 0) = false := by simpa using Nat.ne_of_gt hL
   simp only [e1, e2, e3, e4, hi, Bool.or_self, Option.isNone_some, Bool.false_and, Bool.false_eq_true, if_false]
   by_cases hr : 0 ≤ i ∧ i < (L : Int)
-  · have hr' : i ≥ 0 ∧ i < (L : Int) := ⟨hr.1, hr.2⟩
-    simp [hr, hr']
-  · have hr' : ¬ (i ≥ 0 ∧ i < (L : Int)) := fun c => hr ⟨c.1, c.2⟩
-    simp only [hr, hr', if_false]
+  · simp [hr]
+  · simp only [hr, if_false]
 
 end Pandora.Bridge.C15Flow
